@@ -614,6 +614,11 @@ func runC04(w *W) {
 		c04Statement(w, idx, text, desc)
 	}
 
+	// (0) minimised past failures first (those that parse; the others are C01-C03's business)
+	for i, s := range regressionInputs {
+		run(s, "regress:"+itoa(i))
+	}
+
 	// (1) every corpus statement, as is
 	for _, s := range stmts {
 		run(s.Text, "corpus:"+s.Test+"#"+itoa(s.Index))
@@ -909,4 +914,82 @@ func runC04(w *W) {
 		}
 		c04Statement(w, idx, s, desc)
 	}
+
+	// (11) leaf substitution: the statement skeletons of the corpus (every statement kind and clause the goldens know)
+	// with their string / number / identifier leaves replaced by difficult ones — line breaks, tabs, quotes and
+	// backslashes inside strings, huge and negative-looking numbers, quoted identifiers with spaces, dots and '%'.
+	// A literal replaced by a literal of the same kind keeps the statement syntactically valid wherever the leaf is an
+	// ordinary value (COMMENT, DEFAULT, SETTINGS, FORMAT arguments, engine parameters, casts, …).
+	nLeaf := w.pickN(40000, 800000)
+	for k := 0; k < nLeaf; k++ {
+		idx, mine := w.Case()
+		if !mine {
+			continue
+		}
+		r := NewRng(w.Seed, uint64(idx), 48)
+		base := stmts[r.Intn(len(stmts))].Text
+		if len(base) > 3000 {
+			continue
+		}
+		v, ok := leafSubstitute(r, base)
+		if !ok {
+			continue
+		}
+		c04Statement(w, idx, v, "leaf-subst")
+	}
+}
+
+// SQL source spellings (backslash escapes are the SQL ones) …
+var nastyStrings = []string{`'x\ny'`, `'a\nb'`, `'tab\there'`, `'q''q'`, `'back\\slash'`, `'\0nul'`, `'é€😀'`, `''`, `' '`, `'%d %s'`, `'<nil>'`, `'a\rb'`, `'\'lead'`, `'trail\\'`,
+	`'line1\nline2\nline3'`, `'\x41\x0a'`, `'a\\nb'`, `'\b\f\v\a\e'`, `'{}'`, `'$a$'`, `'--c'`, `'/*c*/'`, `'x;y'`,
+	// … and raw control characters between the quotes
+	"'x\ny'", "'raw\ttab'", "'multi\n\nline'", "'cr\rlf\n'"}
+var nastyNumbers = []string{"0", "18446744073709551615", "18446744073709551616", "9223372036854775808", "1e400", "0x10", "0b11", "1.50", ".5", "1e-7", "1_000", "007", "1e21", "123456789012345678901234567890"}
+var nastyIdents = []string{"`a b`", "`a.b`", "`%`", "\"q\"\"q\"", `"ident\\with\\bs"`, "`é`", "`1x`", "`select`", "\"NULL\"", "`a'b`", "`tab\there`"}
+
+// leafSubstitute replaces 1..3 leaves of src (tokens of kind STRING / NUMBER / IDENT) by a nasty leaf of the same kind.
+func leafSubstitute(r *Rng, src string) (string, bool) {
+	sp, ok := tokenSpans(src)
+	if !ok || len(sp) == 0 {
+		return "", false
+	}
+	var cand []int
+	for i, t := range sp {
+		if t.Tok == token.STRING || t.Tok == token.NUMBER || (t.Tok == token.IDENT && r.Chance(1, 3)) {
+			cand = append(cand, i)
+		}
+	}
+	if len(cand) == 0 {
+		return "", false
+	}
+	chosen := map[int]string{}
+	n := 1 + r.Intn(3)
+	for j := 0; j < n; j++ {
+		i := cand[r.Intn(len(cand))]
+		switch sp[i].Tok {
+		case token.STRING:
+			if src[sp[i].Start] != '\'' { // x'..', b'..', heredocs: keep
+				continue
+			}
+			chosen[i] = pick(r, nastyStrings)
+		case token.NUMBER:
+			chosen[i] = pick(r, nastyNumbers)
+		default:
+			chosen[i] = pick(r, nastyIdents)
+		}
+	}
+	if len(chosen) == 0 {
+		return "", false
+	}
+	var sb strings.Builder
+	last := 0
+	for i, t := range sp {
+		if rep, ok := chosen[i]; ok {
+			sb.WriteString(src[last:t.Start])
+			sb.WriteString(rep)
+			last = t.End
+		}
+	}
+	sb.WriteString(src[last:])
+	return sb.String(), true
 }
